@@ -301,7 +301,11 @@ class Parser:
 
     def _number(self, token: Token) -> int:
         """Return the value of a repetition count (a `u32` in pest)."""
-        value = int(token.value)
+        try:
+            value = int(token.value)
+        except ValueError as err:
+            # More digits than `int` is willing to convert.
+            raise PestGrammarSyntaxError("number is too large", token=token) from err
         if value > 0xFFFFFFFF:  # noqa: PLR2004
             raise PestGrammarSyntaxError("number is too large", token=token)
         return value
@@ -323,5 +327,11 @@ class Parser:
         else:
             stop = None
 
-        self.eat(TokenKind.RBRACKET)
-        return PeekSlice(start, stop, tag=tag)
+        token = self.eat(TokenKind.RBRACKET)
+        try:
+            return PeekSlice(start, stop, tag=tag)
+        except ValueError as err:
+            # More digits than `int` is willing to convert.
+            raise PestGrammarSyntaxError(
+                "PEEK slice index is too large", token=token
+            ) from err
